@@ -1,11 +1,17 @@
-\* the tree as it is, explored completely (no safety invariant): the wedge is permanent; edges exported
+\* the tree before ef885bb, explored completely (no safety invariant): the wedge is permanent; edges exported
 SPECIFICATION Spec
 CONSTANTS
   Guard = "AsCoded"
-  Classes <- UpTo2
+  Cmp = "hash"
+  Setups <- SetsOne
+  Blocks <- BlocksUpTo2
+  Seconds <- NoSeconds
   MaxRound = 1
   MaxRestarts = 2
   Sched = "fixed"
+  ByzVotes = "support"
+  Loss = "none"
+  Serve = "prefix"
 INVARIANTS TypeOK
 PROPERTIES WedgeIsPermanent
 ACTION_CONSTRAINT Edge
